@@ -83,7 +83,7 @@ fn main() {
         let mut unplanned = false;
         let use_free0 = steel::verif::USE_FREE.load(Ordering::SeqCst);
         let mut host = HostState { uniq: uniq.clone(), ..Default::default() };
-        if vmtrace { vmrec::begin_case(&case.id); }
+        if vmtrace { vmrec::begin_case(&case.id, e); }
         for (si, st) in case.steps.iter().enumerate() {
             let src = st.src.replace("@@", &uniq);
             if vmtrace && si > 0 { vmrec::mark_unit(); }
